@@ -76,7 +76,10 @@ out = ["### 11.6 Seeded changes and which check reports them\n",
        "  C07.a; C10-13 dispatcher forwards unknown start bytes to the data decoder whose `len < 6 → None` precedes the start-byte test → C10 `c.verdicts` delegate-guard",
        "  (required only while the sub-decoder has a `None` verdict that has not established its own start byte); C12-13 field-wise offline reset that keeps the token ring",
        "  (LAS still valid after re-joining) → C12 `d.truthful` offline-forgets-ring; C14-13 the event early-return moved in front of `increment_cycle_state()` → C14",
-       "  `a.progress` declined-turn-advances-slot (per-iteration counters).  The second C07 batch (C07-3.., asked to avoid the frame count bit) is listed below.",
+       "  `a.progress` declined-turn-advances-slot (per-iteration counters).  The second C07 batch (C07-3..6, asked to avoid the frame count bit): C07-3/-5 Prm_Req no",
+       "  longer leads back to Set_Prm when Station_Not_Ready is also set → C07 `b.prm-req`; C07-6 the diagnostics helper rejects a reply whose extended part does not fit",
+       "  → C07 `b.diag-accept` (closed world of rejection reasons); C07-4 reported by `d.diag` as built.  C06-1..3 (two agents after C06 was claimed): C06-1 → C12 `e.reply`",
+       "  both-ready-states, C06-3 → C06 imports C01 `b.sync-pause`, C06-2 reported by the imported C12.a.",
        "* an observation outside a property's scope: the RP2040 PHY (feature `phy-rp2040`) drops the whole receive buffer on a partial drop (acknowledged TODO in its",
        "  source); C16 quantifies over the generic helpers on the simulator/harness PHYs, so this is recorded under `not_decided` in the thorough evidence, not reported.\n",
        "| seed | mechanism | change | applied as | check | first reporting clause |", "|---|---|---|---|---|---|"]
